@@ -11,12 +11,13 @@ VARIABLES tid, l
 ASSUME TLCSet(2, [t \in 1..Len(Traces) |-> 0])
 ASSUME TLCSet(5, [t \in 1..Len(Traces) |-> {}])
 ObsOK(o) == o.created = created' /\ o.n = (IF created' = "p" THEN 0 ELSE 1) /\ o.subscribed = subscribed' /\ ~o.exc
-PropsOK == ((wait = "p" /\ wait' = "err") => OwnFailed' # {}) /\ OnlyAfterOwnSuccess' /\ AtMostOnce' /\ Unsubscribed' /\ PendingMeansOutstanding' /\ Creation' /\ GoneAfterFailure'
+PropsOK == ((wait = "p" /\ wait' = "err" /\ ~lost') => OwnFailed' # {}) /\ OnlyAfterOwnSuccess' /\ AtMostOnce' /\ Unsubscribed' /\ PendingMeansOutstanding' /\ Creation' /\ GoneAfterFailure'
            /\ ((wait = "p" /\ wait' = "ok" /\ mode = "all" /\ Regular /\ devUsed' = {}) => OwnStarted' = {} /\ OwnOk' # {})
-           /\ ((wait = "p" /\ wait' = "err" /\ Regular /\ devUsed' = {}) => OwnOk' = {} /\ OwnStarted' = {})
+           /\ ((wait = "p" /\ wait' = "err" /\ ~lost' /\ Regular /\ devUsed' = {}) => OwnOk' = {} /\ OwnStarted' = {})
 Step(e) ==
   CASE e.a = "Reply"    -> Reply
     [] e.a = "Refuse"   -> Refuse
+    [] e.a = "Lose"     -> Lose
     [] e.a = "Upload"   -> Upload(e.s, e.d)
     [] e.a = "Uploaded" -> Uploaded(e.s, e.d)
     [] e.a = "Failed"   -> Failed(e.s, e.d)
